@@ -9,6 +9,7 @@ import desper.math as dm
 from hypothesis import strategies as st
 
 from vlib.core import PropertyViolation
+from vlib import worldops
 
 ID = 'C18'
 LEVEL = 'exploration'
@@ -45,7 +46,9 @@ def strategy():
         'num': st.lists(st.integers(-10000, 10000), min_size=NV, max_size=NV),
         'den': st.lists(st.integers(1, 50), min_size=NV, max_size=NV),
         'flo': st.lists(st.integers(-10 ** 6, 10 ** 6), min_size=24, max_size=24),
-        'sel': st.integers(0, 10 ** 6)})
+        'sel': st.integers(0, 10 ** 6),
+        # scale: 0, or the number of distinct angles a sweep passes through from_polar / from_heading, twice over
+        'amp': worldops.size_amp(none=60, sizes=(64, 130, 257, 300, 520))})
 
 
 def viol(clause, **d):
@@ -109,7 +112,7 @@ def run_case(case):
     exact_matrices(F, sel, facts)
     transforms(F, case['flo'], facts)
     swizzles(F)
-    floats([x / 1000.0 for x in case['flo']], sel, facts)
+    floats([x / 1000.0 for x in case['flo']], sel, facts, case.get('amp') or 0)
     nontrivial = facts['generic_matrices'] and facts['limit_ratio_in_band']
     return {'nontrivial': bool(nontrivial), 'classes': sorted(k for k, v in facts.items() if v)}
 
@@ -335,7 +338,7 @@ def moderate(x):
     return 0.0 if abs(x) < 1e-3 else x
 
 
-def floats(f, sel, facts):
+def floats(f, sel, facts, amp=0):
     f = [moderate(x) for x in f]
     for dim in (2, 3, 4):
         V = VEC[dim]
@@ -409,6 +412,23 @@ def floats(f, sel, facts):
             viol('rotate_advances_the_heading', a=a, angle=ang, got=rot)
         if not close(math.cos(va.heading), a[0] / la) or not close(math.sin(va.heading), a[1] / la):
             viol('heading_is_the_angle_of_the_vector', a=a, got=va.heading)
+    if amp:
+        # a turret sweeping: many distinct angles one after the other, then the same angles again - the answer for an
+        # angle does not depend on which angles were asked before
+        n = amp
+        step = (int(f[9]) % 7 + 1) * math.pi / 180
+        for rnd in range(2):
+            for k in range(n):
+                ak = ang + k * step
+                fpk = dm.Vec2.from_polar(2.0, ak)
+                fhk = dm.Vec2(3.0, 4.0).from_heading(ak)
+                if not (close(fpk[0], 2 * math.cos(ak), 2) and close(fpk[1], 2 * math.sin(ak), 2)):
+                    viol('from_polar_builds_the_vector_of_that_magnitude_and_angle', r=2.0, angle=ak, got=fpk,
+                         sweep_round=rnd, position=k)
+                if not (close(fhk[0], 5 * math.cos(ak), 5) and close(fhk[1], 5 * math.sin(ak), 5)):
+                    viol('from_heading_sets_the_heading', a=(3.0, 4.0), heading=ak, got=fhk, sweep_round=rnd,
+                         position=k)
+        facts['angle_sweep'] += 1
     r = f[10]
     fp = dm.Vec2.from_polar(r, ang)
     if not close(abs(fp), abs(r), abs(r)) or not (close(fp[0], r * math.cos(ang), abs(r))
